@@ -14,7 +14,7 @@ open Sshuttle.ClientTrace
 
 /-- Events with no role in the ordering rules and no iteration number. -/
 def Plain (e : Ev) : Prop :=
-  e ≠ .fw .routes ∧ e ≠ .ready ∧ e ≠ .close ∧ ∀ i, e ≠ .run i
+  e ≠ .fw .routes ∧ e ≠ .ready ∧ e ≠ .close ∧ e ≠ .sshDead ∧ (∀ b, e ≠ .hsOk b) ∧ ∀ i, e ≠ .run i
 
 /-- State changes that keep the trace and do not install the ROUTES callback. -/
 def Frame (f : World → World) : Prop :=
@@ -35,6 +35,9 @@ theorem M.bind_assoc {α β γ} (m : M α) (f : α → M β) (g : β → M γ) :
   simp only [bind_apply]
   rcases m w with ⟨r, w'⟩
   cases r <;> rfl
+
+theorem M.pure_bind {α β} (a : α) (f : α → M β) : (pure a : M α) >>= f = f a := by
+  funext w; rfl
 
 section chain
 variable {I : World → Prop} (h : Chain I) (sc : Script)
@@ -134,7 +137,7 @@ theorem pres_readInit (fuel : Nat) : Pres I (readInit sc fuel) := by
   exact pres_readExactly h sc _ _ _
 
 /-- Everything of `startup` before the final `mark .hsOk`. -/
-def startupChecks (sc : Script) : M Unit := do
+def startupChecks (sc : Script) : M Bytes := do
   mapExc connectExc (act sc .connect)
   modifyW fun w => { w with tx := initTx }
   let w ← getW
@@ -142,11 +145,13 @@ def startupChecks (sc : Script) : M Unit := do
   act sc .poll
   (if sc.cfg.poll0.isSome then raise .fatal else pure ())
   (if init ≠ Handshake.expected then raise .fatal else pure ())
+  pure init
 
 omit h in
-theorem startup_eq : startup sc = (do startupChecks sc; mark .hsOk) := by
+theorem startup_eq : startup sc = (do let init ← startupChecks sc; mark (.hsOk init)) := by
   unfold startup startupChecks
   simp only [M.bind_assoc]
+  rfl
 
 theorem pres_startupChecks : Pres I (startupChecks sc) := by
   unfold startupChecks
@@ -156,7 +161,7 @@ theorem pres_startupChecks : Pres I (startupChecks sc) := by
   refine Pres.bind (Pres.mapExc (pres_readInit h sc _)) fun init => ?_
   refine Pres.bind (pres_act h sc (by simp [Plain])) fun _ => ?_
   refine Pres.bind (Pres.ite (Pres.raise _) (Pres.pure _)) fun _ => ?_
-  exact Pres.ite (Pres.raise _) (Pres.pure _)
+  exact Pres.bind (Pres.ite (Pres.raise _) (Pres.pure _)) fun _ => Pres.pure _
 
 /-- `register` after `mux.got_routes = onroutes`. -/
 def registerRest (sc : Script) : M Unit := do
@@ -261,9 +266,8 @@ theorem pres_muxCallback : Pres I (muxCallback sc) := by
   refine Pres.bind Pres.getW fun w' => ?_
   exact Pres.ite (pres_muxFlush h sc) (Pres.pure _)
 
-theorem pres_runonce (i : Nat) (hrun : ∀ w, I w → I (push (.run i) w)) : Pres I (runonce sc i) := by
-  unfold runonce
-  refine Pres.bind (Pres.mark hrun) fun _ => ?_
+theorem pres_runonceBody : Pres I (runonceBody sc) := by
+  unfold runonceBody
   refine Pres.bind (pres_frame h (by by_frame)) fun _ => ?_
   refine Pres.bind (pres_act h sc (by simp [Plain])) fun _ => ?_
   refine Pres.bind Pres.getW fun w => ?_
@@ -271,8 +275,13 @@ theorem pres_runonce (i : Nat) (hrun : ∀ w, I w → I (push (.run i) w)) : Pre
   refine Pres.bind (Pres.ite (pres_muxCallback h sc hr) (Pres.pure _)) fun _ => ?_
   exact Pres.ite (pres_onacceptTcp h sc) (Pres.pure _)
 
+theorem pres_runonce (i : Nat) (hrun : ∀ w, I w → I (push (.run i) w)) : Pres I (runonce sc i) := by
+  unfold runonce
+  exact Pres.bind (Pres.mark hrun) fun _ => pres_runonceBody h sc hr
+
 omit hr in
-theorem pres_checkAlive (st : Option Step) : Pres I (checkAlive sc st) := by
+theorem pres_checkAlive (hdead : ∀ w, I w → I (push .sshDead w)) (st : Option Step) :
+    Pres I (checkAlive sc st) := by
   unfold checkAlive
   have hb : Pres I (do
       act sc (if sc.cfg.daemon then Ev.kill else Ev.poll)
@@ -281,7 +290,9 @@ theorem pres_checkAlive (st : Option Step) : Pres I (checkAlive sc st) := by
       | some s =>
         modifyW (deliver s)
         match s.alive with
-        | some _ => raise (if sc.cfg.daemon then Exc.oserr Gen.C12.ESRCH else Exc.fatal)
+        | some _ => do
+          mark .sshDead
+          raise (if sc.cfg.daemon then Exc.oserr Gen.C12.ESRCH else Exc.fatal)
         | none => pure ()) := by
     refine Pres.bind (pres_act h sc ?_) fun _ => ?_
     · split <;> simp [Plain]
@@ -289,17 +300,18 @@ theorem pres_checkAlive (st : Option Step) : Pres I (checkAlive sc st) := by
       · exact Pres.raise _
       · refine Pres.bind (pres_frame h (by by_frame)) fun _ => ?_
         · split
-          · exact Pres.raise _
+          · exact Pres.bind (Pres.mark hdead) fun _ => Pres.raise _
           · exact Pres.pure _
   exact Pres.ite (Pres.mapExc hb) hb
 
 theorem pres_mainLoop (steps : List Step) (i : Nat)
-    (hrun : ∀ j, i ≤ j → ∀ w, I w → I (push (.run j) w)) : Pres I (mainLoop sc i steps) := by
+    (hrun : ∀ j, i ≤ j → ∀ w, I w → I (push (.run j) w))
+    (hdead : ∀ w, I w → I (push .sshDead w)) : Pres I (mainLoop sc i steps) := by
   induction steps generalizing i with
-  | nil => unfold mainLoop; exact pres_checkAlive h sc none
+  | nil => unfold mainLoop; exact pres_checkAlive h sc hdead none
   | cons s rest ih =>
     unfold mainLoop
-    refine Pres.bind (pres_checkAlive h sc _) fun _ => ?_
+    refine Pres.bind (pres_checkAlive h sc hdead _) fun _ => ?_
     refine Pres.bind (pres_runonce h sc hr i (hrun i (Nat.le_refl _))) fun _ => ?_
     refine Pres.bind (Pres.ite (pres_checkFullness h) (Pres.pure _)) fun _ => ?_
     exact ih (i + 1) fun j hj => hrun j (by omega)
